@@ -410,6 +410,9 @@ func runC12(c *Ctx) {
 	// moves past the end of the data)
 	c.withRule("R9", func() { checkReducers(c, []string{"(*File).readAt"}) })
 
+	// ---------- R10 the chunk offsets of one call cannot wrap round int64 ----------
+	checkChunkOffsetsCannotWrap(c, "R10")
+
 	// ---------- R8 requests are sent while f.mu is held ----------
 	checkRequestsUnderFileLock(c, "R8", exported)
 
@@ -556,6 +559,8 @@ func runC13(c *Ctx) {
 	// R11: a STATUS answer to READ is a failure or EOF, never success (shared with C20.Z6): read as success it gives a
 	// short count — or, in the concurrent ReadAt, a full count over bytes that never arrived — with a nil error
 	c.withRule("R11", func() { checkStatusCaseNextToDataCase(c, "Z6") })
+	// R12: the lowest failing offset is elected among offsets that did not wrap (shared with C12.R10)
+	c.withRule("R12", func() { checkChunkOffsetsCannotWrap(c, "R10") })
 
 	// R7: ReadFrom / ReadFromWithConcurrency leave the File offset at the end of the intact prefix
 	checkOffsetStores(c, "R7", map[string]bool{"(*File).ReadFrom": true, "(*File).readFromWithConcurrency": true})
@@ -1337,4 +1342,146 @@ func checkReducers(c *Ctx, names []string) {
 		// the error return is taken exactly when firstErr.err != nil
 	}
 
+}
+
+// checkChunkOffsetsCannotWrap (C12.R10, C13.R12, C01.R12): the multi-chunk paths cut a transfer at off, off+chunk,
+// off+2*chunk, … in int64.  Seek accepts any non-negative offset, so with off near MaxInt64 the later offsets go
+// negative; the reducers elect the lowest failing offset, which is then the wrapped one, and Read/Write return a count
+// of bytes that never moved and leave File.offset negative.  Each function that cuts chunks from an (b, off) pair must
+// refuse the pair when off+len(b) does not fit — a comparison of the offset with MaxInt64 minus the length (or the
+// classical off+n < off test) whose failing side leaves without sending — before the first request is made; the
+// streaming slicer of ReadFrom must make the same test on each chunk before it dispatches it.
+func checkChunkOffsetsCannotWrap(c *Ctx, rule string) {
+	p := c.P
+	const maxI64 = int64(^uint64(0) >> 1)
+	isGuard := func(bo *ssa.BinOp) (safeOnTrue bool, ok bool) {
+		// off > MaxInt64 - n   |   MaxInt64 - n < off   |  off+n < off | off+n < 0
+		hasMaxSub := func(v ssa.Value) bool {
+			sb, ok := v.(*ssa.BinOp)
+			if !ok || sb.Op != token.SUB {
+				return false
+			}
+			k, isK := constInt(sb.X)
+			return isK && k == maxI64
+		}
+		isAdd := func(v ssa.Value) bool {
+			a, ok := v.(*ssa.BinOp)
+			return ok && a.Op == token.ADD
+		}
+		if b, ok := bo.X.Type().Underlying().(*types.Basic); !ok || b.Kind() != types.Int64 {
+			return false, false
+		}
+		switch bo.Op {
+		case token.GTR, token.GEQ:
+			if hasMaxSub(bo.Y) { // off > Max-n : true = overflow
+				return false, true
+			}
+			if hasMaxSub(bo.X) { // Max-n >= off : true = safe
+				return true, true
+			}
+		case token.LSS, token.LEQ:
+			if hasMaxSub(bo.X) { // Max-n < off : true = overflow
+				return false, true
+			}
+			if hasMaxSub(bo.Y) { // off <= Max-n : true = safe
+				return true, true
+			}
+			if isAdd(bo.X) { // off+n < off, off+n < 0 : true = overflow
+				return false, true
+			}
+		}
+		return false, false
+	}
+	sends := func(cc *ssa.CallCommon) bool {
+		switch calleeName(cc) {
+		case "dispatchRequest", "sendPacket", "readChunkAt", "writeChunkAt", "readAtSequential", "writeAtConcurrent":
+			return true
+		}
+		return false
+	}
+	n := 0
+	for _, name := range []string{"(*File).readAt", "(*File).writeAt", "(*File).readFromWithConcurrency"} {
+		fn := p.Func(name)
+		if fn == nil {
+			c.missing(rule, name)
+			continue
+		}
+		c.looked(name)
+		// the safe region: blocks dominated by the safe successor of a guard (in fn or in one of its closures)
+		type region struct {
+			fn   *ssa.Function
+			head *ssa.BasicBlock
+		}
+		var regions []region
+		fns := append([]*ssa.Function{fn}, fn.AnonFuncs...)
+		for _, f := range fns {
+			eachInstr(f, func(in ssa.Instruction) {
+				bo, ok := in.(*ssa.BinOp)
+				if !ok {
+					return
+				}
+				safeOnTrue, ok := isGuard(bo)
+				if !ok {
+					return
+				}
+				// through && / ||: the guard may be one operand of a short-circuit; take the If that tests it
+				for _, r := range *bo.Referrers() {
+					iff, ok := r.(*ssa.If)
+					if !ok {
+						continue
+					}
+					safe, unsafe := iff.Block().Succs[1], iff.Block().Succs[0]
+					if safeOnTrue {
+						safe, unsafe = unsafe, safe
+					}
+					// the failing side must not send anything
+					if reachFromBlock(unsafe, func(x ssa.Instruction) bool { cc := callOf(x); return cc != nil && sends(cc) }, func(x ssa.Instruction) bool {
+						return len(safe.Instrs) > 0 && x == safe.Instrs[0]
+					}) {
+						continue
+					}
+					regions = append(regions, region{f, safe})
+				}
+			})
+		}
+		covered := func(in ssa.Instruction) bool {
+			f := in.Parent()
+			for _, r := range regions {
+				if r.fn == f {
+					if r.head.Dominates(in.Block()) {
+						return true
+					}
+					// reached only from the safe side: every path from entry to in passes the head
+					if !reachFromBlock(f.Blocks[0], func(x ssa.Instruction) bool { return x == in }, func(x ssa.Instruction) bool { return x.Block() == r.head }) {
+						return true
+					}
+				}
+			}
+			// a closure made inside a safe region of its parent
+			if f.Parent() != nil {
+				for _, site := range findInstrs(f.Parent(), func(x ssa.Instruction) bool {
+					mc, ok := x.(*ssa.MakeClosure)
+					return ok && mc.Fn == f
+				}) {
+					for _, r := range regions {
+						if r.fn == f.Parent() && r.head.Dominates(site.Block()) {
+							return true
+						}
+					}
+				}
+			}
+			return false
+		}
+		ord := 0
+		for _, f := range fns {
+			for _, in := range anyCallsWhere(f, sends) {
+				ord++
+				n++
+				key := fmt.Sprintf("%s: request #%d is made only after the offsets were found to fit", name, ord)
+				c.check(covered(in), rule, key, p.Pos(in.Pos()), "behind an off > MaxInt64-len test",
+					"a request of this transfer can be sent although off+len overflows int64: Seek(MaxInt64-1) then Read/Write of more than one packet makes the later chunk offsets negative, the reducer elects the wrapped offset as the lowest failure, and the call returns a count of bytes that never moved and leaves File.offset negative")
+			}
+		}
+	}
+	c.check(n >= 6, rule, "requests of the multi-chunk paths", "?", fmt.Sprintf("%d request sites", n), fmt.Sprintf("only %d request sites found", n))
 }
